@@ -190,6 +190,16 @@ func panicSite(st string) string {
 	return "unknown"
 }
 
+// Over tells (and counts) that enough witnesses of this signature have been
+// recorded already, so that hot loops can skip formatting further ones.
+func (c *Ctx) Over(key string) bool {
+	if c.violN[key] >= 5 {
+		c.violN[key]++
+		return true
+	}
+	return false
+}
+
 func (c *Ctx) Violation(key, msg string, detail interface{}) {
 	c.violN[key]++
 	if c.violN[key] > 5 {
